@@ -25,6 +25,7 @@ SHRINK_INTS = []
 
 HEAVY_FROM = {"quick": 3000, "thorough": 100000}  # the appended plans are complete train_td7 runs: small chunks per worker process
 HEAVY_CHUNK = 24
+MINIMISE_MAX_EXEC = 60
 BASE = {"quick": 3000, "thorough": 100000}  # additive extension: plans below these indices are those of the earlier tiers
 
 
